@@ -176,9 +176,9 @@ func cmdCheck(args []string) int {
 	}
 	budget := *maxPaths
 	if budget == 0 {
-		budget = 4000
+		budget = 40000
 		if *tier == "thorough" {
-			budget = 40000
+			budget = 400000
 		}
 	}
 	var reports []*HarnessReport
